@@ -2,6 +2,7 @@
 (* C01 part 4.  A deterministic reference interpreter (big-step, one recursive operator per
    syntactic category) for a structured subset of Go: the REFERENCE semantics of
      for with labelled break / continue (Go 1.22: a fresh copy of the loop variable per iteration),
+     for range over a string and over a slice, select with a default case only,
      switch with fallthrough, goto to a label of an enclosing statement list, closures capturing
      variables by reference, array and struct values (copied on assignment), pointers to structs,
      slices as (backing array, offset, length, capacity) with append writing in place within
@@ -74,7 +75,8 @@ MgMin(S) == CHOOSE m \in S : \A o \in S : m <= o
 MgSliceElems(st, sl) == [j \in 1..sl.len |-> st.heap[sl.a][sl.off + j]]
 
 RECURSIVE Eval(_, _, _), EvalList(_, _, _, _, _), ExecBlock(_, _, _, _), ExecStmt(_, _, _),
-          ForIter(_, _, _), RangeIter(_, _, _, _, _), SwitchRun(_, _, _, _), CallFrame(_, _, _, _), RunDefers(_, _, _, _)
+          ForIter(_, _, _), RangeIter(_, _, _, _, _), RangeSlIter(_, _, _, _, _), SwitchRun(_, _, _, _), CallFrame(_, _, _, _),
+          RunDefers(_, _, _, _)
 
 \* ---------------------------------------------------------------------------- frames: defer, panic, recover
 (* Go specification, "Defer statements", "Handling panics", "Run-time panics", with gc as the reference where the
@@ -245,6 +247,12 @@ ExecStmt(s, env, st) ==
     [] s.s = "ranges" ->                                 \* for iv, rv := range <string>
          LET re == Eval(s.e, env, st) IN IF re.p # <<>> THEN SPanic(re.p, env, re.st) ELSE
          Scoped(RangeIter(s, re.v, 1, env, re.st), env)
+    [] s.s = "rangesl" ->                                \* for iv, rv := range <slice>: the range expression is evaluated once
+         LET re == Eval(s.e, env, st) IN IF re.p # <<>> THEN SPanic(re.p, env, re.st) ELSE
+         Scoped(RangeSlIter(s, re.v, 0, env, re.st), env)
+    [] s.s = "select" ->                                 \* select { default: body }: the only case is the default one, it is chosen;
+         LET r == ExecBlock(s.body, 1, env, st) IN       \* "a break statement terminates execution of the innermost for, switch, or select"
+         Scoped(IF r.sig.k = "break" /\ r.sig.l = "" THEN SNext(env, r.st) ELSE r, env)
     [] s.s = "switch" ->
          LET rt == Eval(s.e, env, st) IN IF rt.p # <<>> THEN SPanic(rt.p, env, rt.st) ELSE
          LET cl == s.clauses
@@ -292,6 +300,19 @@ RangeIter(s, str, i, env, st) ==
            e2 == IF s.rv = 0 THEN e1 ELSE [e1 EXCEPT ![s.rv] = Len(s2.heap)]
            rb == ExecBlock(s.body, 1, e2, s2)  k == rb.sig.k IN
        IF k = "next" \/ (k = "continue" /\ rb.sig.l \in {"", s.label}) THEN RangeIter(s, str, i + d[2], env, rb.st)
+       ELSE IF k = "break" /\ rb.sig.l \in {"", s.label} THEN SNext(env, rb.st)
+       ELSE rb
+
+\* for iv, rv := range sl, sl a slice value: the iterations are 0 .. len(sl) - 1 with the length the slice has when the
+\* statement starts; the element is read when its iteration starts; fresh variables per iteration
+RangeSlIter(s, sl, i, env, st) ==
+  IF i >= sl.len THEN SNext(env, st)
+  ELSE LET s1 == IF s.iv = 0 THEN st ELSE MgAlloc(st, i)
+           e1 == IF s.iv = 0 THEN env ELSE [env EXCEPT ![s.iv] = Len(s1.heap)]
+           s2 == IF s.rv = 0 THEN s1 ELSE MgAlloc(s1, s1.heap[sl.a][sl.off + i + 1])
+           e2 == IF s.rv = 0 THEN e1 ELSE [e1 EXCEPT ![s.rv] = Len(s2.heap)]
+           rb == ExecBlock(s.body, 1, e2, s2)  k == rb.sig.k IN
+       IF k = "next" \/ (k = "continue" /\ rb.sig.l \in {"", s.label}) THEN RangeSlIter(s, sl, i + 1, env, rb.st)
        ELSE IF k = "break" /\ rb.sig.l \in {"", s.label} THEN SNext(env, rb.st)
        ELSE rb
 
